@@ -22,6 +22,7 @@ import (
 	"path/filepath"
 	"sort"
 	"strconv"
+	"syscall"
 )
 
 type Out struct {
@@ -159,6 +160,11 @@ func mergeChild(o *Out, dir string) {
 var props = map[string]func(o *Out){}
 
 func main() {
+	if mb, err := strconv.Atoi(os.Getenv("VERIF_AS_LIMIT_MB")); err == nil && mb > 0 {
+		// child processes that run code which may have gone wrong: fail fast instead of eating the machine
+		lim := syscall.Rlimit{Cur: uint64(mb) << 20, Max: uint64(mb) << 20}
+		syscall.Setrlimit(syscall.RLIMIT_AS, &lim)
+	}
 	if len(os.Args) < 5 {
 		fmt.Fprintln(os.Stderr, "usage: harness <property> <tier> <seed> <outdir>")
 		os.Exit(2)
